@@ -26,7 +26,7 @@ POOL_CLASS = {"uj_steps": "UsageJourneyStep", "jobs": "Job", "devices": "Device"
 
 def links_cfg(elems, maxlen):
     return ("SPECIFICATION Spec\nCONSTANTS\n  Elems = {%s}\n  MaxLen = %d\n  FixNoOp = TRUE\n  FixRemove = TRUE\n"
-            "  FixImul = TRUE\nCONSTRAINT Bound\nVIEW View\nINVARIANT ContentLikePython\nINVARIANT LiveListAttached\n"
+            "  FixImul = TRUE\n  FixRefused = TRUE\nCONSTRAINT Bound\nVIEW View\nINVARIANT ContentLikePython\nINVARIANT LiveListAttached\n"
             "INVARIANT ReverseAgreesWithForward\nINVARIANT NoSpuriousError\n" % (", ".join(elems), maxlen))
 
 
